@@ -62,6 +62,16 @@ func sigMatches(signature, path, content string) bool {
 	return false
 }
 
+var opaqueTypes = []string{"struct {}", "gen.opaqueStruct", "*gen.opaqueStruct", "map[string]int", "map[string]string", "gen.namedMap", "[]int", "[]string", "gen.namedSlice", "[2]int", "int", "int64", "uint8", "float32", "complex128", "func()", "chan int", "[]uint8", "*errors.errorString", "time.Duration", "map[interface {}]interface {}"}
+
+func opaqueFloors() []floor {
+	out := []floor{{Check: "TestC20_Opaque", Class: "nontrivial", Min: 0.5}}
+	for _, t := range opaqueTypes {
+		out = append(out, floor{Check: "TestC20_Opaque", Class: "touched:" + t, Min: 0.0005})
+	}
+	return out
+}
+
 var pegiAssumption = "PEGI trusts /repo/jsonpath.peg (9 KB) and README as the published grammar; it implements the PEG meta-syntax subset that file uses and is validated against all 265 syntax-error cases the suite pins"
 
 var properties = map[string]*propSpec{
@@ -112,6 +122,16 @@ var properties = map[string]*propSpec{
 			{Check: "TestC12_Parity", Class: "function-after-group-step", Min: 0.05},
 		},
 	},
+	"C13": {
+		Title: "Accessor.Set writes exactly the selected location; Get is live",
+		Checks: []checkSpec{
+			{Test: "TestC13_Set", Quick: 20000, Thorough: 300000, Rapid: true},
+		},
+		Assumptions: assume(specAssumption, "accessors whose ancestor location was overwritten are not checked afterwards (README: structure changes are the caller's concern)"),
+		Floors: []floor{
+			{Check: "TestC13_Set", Class: "nontrivial", Min: 0.08},
+		},
+	},
 	"C14": {
 		Title: "Functions see every selected value once, in order; aggregates see all of them",
 		Checks: []checkSpec{
@@ -132,6 +152,14 @@ var properties = map[string]*propSpec{
 			{Check: "TestC15_Errors", Class: "nontrivial:depth>=2", Min: 0.15},
 			{Check: "TestC15_Errors", Class: "nontrivial:multi-failure", Min: 0.08},
 		},
+	},
+	"C20": {
+		Title: "Values that are not decoded JSON are treated as opaque leaves, never crash",
+		Checks: []checkSpec{
+			{Test: "TestC20_Opaque", Quick: 30000, Thorough: 500000, Rapid: true},
+		},
+		Assumptions: assume(specAssumption, "cyclic containers are excluded (not in the property's list); reference-like opaque values are compared by identity"),
+		Floors:      opaqueFloors(),
 	},
 	"C17": {
 		Title: "The accepted language is the published grammar; syntax errors point at the spot",
